@@ -100,6 +100,9 @@ const (
 
 // RFC 9000 §16 variable-length integer in exactly `size` bytes (1,2,4,8); size 0 = minimal.
 func c06Varint(v uint64, size int) []byte {
+	if size != 0 && size < 8 && v >= uint64(1)<<(8*uint(size)-2) {
+		size = 0 // does not fit the requested width: minimal encoding
+	}
 	if size == 0 {
 		switch {
 		case v < 1<<6:
